@@ -184,7 +184,11 @@ Definition step (st0 : tstate) (r : rec) : tstate * list row :=
         (mkts true true (t_live st) (t_dead st) (t_over st) u tm (t_lastx st) (t_legacy st), [])
       else
         let n := S (N.to_nat (sc - u)) in
-        let arr := lost_loop n sc 0 (arr_of st) in
+        (* fstack_account_time: "for (i = task->stack_count - 1; i >= task->user_stack_count; i--)": the open
+           frames above the user frames; legacy: the loop started at stack_count, i.e. with the slot ABOVE the
+           innermost open frame, and billed that slot's 1 ns to the innermost open call *)
+        let arr := if t_legacy st then lost_loop n sc 0 (arr_of st)
+                   else lost_loop (N.to_nat (sc - u)) (sc - 1) 0 (arr_of st) in
         let rows := lost_rows (t_legacy st) n sc arr in
         let st' := with_stack st (u - 1) arr in
         (mkts true true (t_live st') (t_dead st') (t_over st') u tm (t_lastx st) (t_legacy st), rows)
